@@ -311,6 +311,17 @@ Proof.
   destruct (i <? n)%nat eqn:E; [now apply Nat.ltb_lt in E|apply Nat.ltb_ge in E; lia].
 Qed.
 
+Lemma allgather_shape_lem : forall n W, (1 <= W <= n)%nat ->
+  length (ag_indices n W) = n /\
+  forall j, (j < n)%nat -> nth j (ag_indices n W) O = ag_spec n W j /\ (ag_spec n W j < n)%nat.
+Proof.
+  intros n W H. split; [now apply ag_indices_length|].
+  intros j Hj. split; [now apply ag_indices_nth|now apply ag_spec_lt].
+Qed.
+
+Lemma permuted_witness : Permutation [1; 0; 0; 1] (cg_table0 4 2).
+Proof. simpl. apply perm_trans with [0; 1; 0; 1]; [apply perm_swap|]. apply perm_skip. apply perm_swap. Qed.
+
 (* ------------------------------------------------------------------ *)
 (* KDRandomClassWrapper: the generated list has the dataset's length   *)
 (* ------------------------------------------------------------------ *)
